@@ -49,7 +49,10 @@ type implRes struct {
 
 const implGasLimit = 100_0000_0000 // 100 GAS in datoshi: a guard against endless loops, never reached by our programs
 
-func runImpl(script []byte) (res implRes) {
+func runImpl(script []byte) implRes { return runImplOpt(script, true) }
+
+// runImplOpt: countSteps installs the per-instruction hook (first run only).
+func runImplOpt(script []byte, countSteps bool) (res implRes) {
 	defer func() {
 		if r := recover(); r != nil {
 			res.State = "PANIC"
@@ -60,7 +63,9 @@ func runImpl(script []byte) (res implRes) {
 	v.SetPriceGetter(func(op opcode.Opcode, _ []byte) int64 { return fee.Opcode(30*vm.ExecFeeFactorMultiplier, op) })
 	v.SetGasLimit(implGasLimit)
 	steps := 0
-	v.SetOnExecHook(func(util.Uint160, int, opcode.Opcode) { steps++ })
+	if countSteps {
+		v.SetOnExecHook(func(util.Uint160, int, opcode.Opcode) { steps++ })
+	}
 	v.LoadScript(script)
 	err := v.Run()
 	res.Steps = steps
@@ -403,9 +408,10 @@ func (s *stats) check(p prog) bool {
 		return true
 	}
 	a := runImpl(p.Script)
-	b := runImpl(p.Script)
+	b := runImplOpt(p.Script, false)
+	b.Steps = a.Steps
 	s.implRuns.Add(2)
-	s.transitions.Add(int64(a.Steps + b.Steps))
+	s.transitions.Add(int64(a.Steps))
 	ok := true
 	viol := func(oracle, diff string) {
 		c := record(p, m, a)
